@@ -164,3 +164,19 @@ prop(
                  "multitree columns are administered by the C10 check's databases, not here"],
     explanation="text codec modelled with the literal labels regenerated from options.rs; exhaustive kernel sweeps for the 384 option values and the 65536 column pairs",
 )
+
+prop(
+    id="C09", module="Properties.C09", vfile="Properties/C09.v", level="proof", subcmd="c09",
+    subcmds=[("c09", {"quick": 320, "thorough": 12000, "search": 1600}), ("c09e", {"quick": 32000, "thorough": 2000000, "search": 200000})],
+    theorems=["C09_entry_roundtrip", "C09_key_recovered", "C09_page_and_partial_key_identify", "C09_growth_preserves_reads"],
+    counts={"quick": 320, "thorough": 12000, "search": 1600},
+    rule="(c09) growth histories: column 0 is a uniform-key hash column under the zero salt (identity hash), 66-90 keys aimed at ONE index page "
+         "(equal first two bytes), a sixth of them sharing page AND partial key with another key (equal first 8 bytes, different tail), another sixth "
+         "separating only one or two index generations later; 25-60 steps of {commit of 1-24 operations, process, flush, enact, reindex batch, clean, "
+         "drop+reopen} then a drain and a reopen; every key read after every step. Non-trivial = the index of column 0 actually grew (index_00_17 appeared); "
+         "the evidence counts histories in which two index generations coexisted on disk. (c09e) entry packing / key recovery through hook H5 for random "
+         "and boundary (bits, key prefix, address)",
+    assumptions=["a reindex batch is modelled as a step without logical effect; slot-level behaviour of the index (insertion into an empty slot, continuation after a tail mismatch) is tied by the growth histories, not proved",
+                 "index files larger than 17-18 bits are not created in checks; the entry theorems cover 16..49"],
+    explanation="entry packing and key recovery proved for all index sizes; growth = no logical change at pipeline level; correspondence on page-overflow histories",
+)
